@@ -150,6 +150,10 @@ def coq_of(n):
     return 'JNull'
 
 
+class Fl(Fraction):
+    """a number written as a float literal / held in an f64 field"""
+
+
 def canon_of_tree(n):
     """value with numbers as numbers, objects as dicts"""
     k = n[0]
@@ -162,7 +166,7 @@ def canon_of_tree(n):
     if k == 'i':
         return Fraction(n[1])
     if k == 'f':
-        return Fraction(n[1][0], 2 ** n[1][1])
+        return Fl(n[1][0], 2 ** n[1][1])
     if k == 'b':
         return bool(n[1])
     return None
@@ -175,7 +179,7 @@ def canon_of_py(v):
         return [canon_of_py(x) for x in v]
     if isinstance(v, bool) or v is None or isinstance(v, str):
         return v
-    return Fraction(v)
+    return Fl(v) if isinstance(v, float) else Fraction(v)
 
 
 def canon_of_model(t):
@@ -192,20 +196,33 @@ def canon_of_model(t):
     if tag == 'JInt':
         return Fraction(t[1])
     if tag == 'JFlt':
-        return Fraction(t[1], 2 ** t[2])
+        return Fl(t[1], 2 ** t[2])
     if tag == 'JBool':
         return t[1] == 'true'
     raise ValueError('unexpected model value %r' % (t,))
 
 
-def first_diff(a, b, path=''):
+def fbits(x):
+    return struct.unpack('<Q', struct.pack('<d', float(x)))[0]
+
+
+def first_diff(a, b, path='', ulp=0):
+    """first path where two values differ; ulp = tolerated distance in units of the last place for numbers that are not
+    both integers (the property: "numbers compared as numbers, to the last but one bit")"""
     if type(a) != type(b) and not (isinstance(a, Fraction) and isinstance(b, Fraction)):
+        return path or '.'
+    if ulp and isinstance(a, Fraction) and a != b:
+        if not (isinstance(a, Fl) or isinstance(b, Fl)):
+            return path or '.'
+        fa, fb = float(a), float(b)
+        if Fraction(fa) == a and Fraction(fb) == b and ulp_dist(fbits(fa), fbits(fb)) <= ulp:
+            return None
         return path or '.'
     if isinstance(a, dict):
         for k in sorted(set(a) | set(b)):
             if k not in a or k not in b:
                 return path + '.' + k
-            d = first_diff(a[k], b[k], path + '.' + k)
+            d = first_diff(a[k], b[k], path + '.' + k, ulp)
             if d:
                 return d
         return None
@@ -213,7 +230,7 @@ def first_diff(a, b, path=''):
         if len(a) != len(b):
             return path + '[]'
         for x, y in zip(a, b):
-            d = first_diff(x, y, path + '[]')
+            d = first_diff(x, y, path + '[]', ulp)
             if d:
                 return d
         return None
@@ -267,17 +284,18 @@ class Gen:
         return max(lo, min(hi, self.rng.range(-3, 1000)))
 
     def g_float(self):
+        # only values whose decimal text serde_json parses exactly (its fast path: < 2^53 mantissa, few digits); the
+        # inexact tail of its float parser (off by one ulp) is exercised by the `flt` stream, where the property's
+        # "last but one bit" tolerance applies
         r = self.rng.below(8)
         if r == 0:
             return ('f', (0, 0))
         if r == 1:
-            return ('f', (self.rng.range(-10 ** 6, 10 ** 6), 0))
+            return ('f', (self.rng.range(-10 ** 9, 10 ** 9), 0))
         if r == 2:
-            return ('f', (self.rng.range(-2 ** 52, 2 ** 52), self.rng.range(0, 60)))
+            return ('f', (self.rng.range(-2 ** 20, 2 ** 20), self.rng.range(0, 8)))
         if r == 3:
-            return ('f', (2 * self.rng.range(1, 2 ** 20) + 1, self.rng.range(1, 1074 - 21)))     # tiny
-        if r == 4:
-            return ('f', ((2 * self.rng.range(1, 2 ** 20) + 1) * 2 ** self.rng.range(60, 900), 0))  # huge
+            return ('f', (self.rng.choice([1, -1]) * (9 * 10 ** 14 - self.rng.below(3)), 0))
         return ('f', (self.rng.range(-4000, 4000), self.rng.range(0, 3)))
 
     def g_prim(self, p):
@@ -397,7 +415,7 @@ class Gen:
     def g_named(self, name, depth):
         ir = self.irs[name]
         if ir['kind'] == 'struct':
-            if self.loose(1, 25) and not any(f['ty'][0] == 'named' and self.irs[f['ty'][1]].get('rep') == 'x' for f in ir['fields']):
+            if self.loose(1, 25):
                 return self.g_seq(ir['fields'], depth)
             tag = None
             if ir['tag'] and not self.loose(1, 3):
@@ -438,8 +456,6 @@ class Gen:
         # untagged
         if v['shape'] == 'newtype':
             return self.g_type(v['ty'], depth)
-        if self.loose(1, 25):
-            return self.g_seq(v['fields'], depth)
         return self.g_fields(v['fields'], depth)
 
 
@@ -563,11 +579,11 @@ def oracle(c, impl):
         if 'reparse_err' in impl:
             v.append({'class': 'own-output-rejected:' + kind, 'what': 'the serialised form of a parsed document does not parse: %s' % impl['reparse_err']})
             return v
-        d = first_diff(canon_of_py(impl['v1']), canon_of_py(impl['v2']))
+        d = first_diff(canon_of_py(impl['v1']), canon_of_py(impl['v2']), ulp=1)
         if d:
             v.append({'class': 'reserialise-differs:%s:%s' % (kind, d.replace('[]', '')), 'what': 'ser(parse(ser(d))) != ser(d) at %s' % d})
         if c['mode'] == 'canon':
-            d = first_diff(canon_of_tree(tree_of_text(c['doc'])), canon_of_py(impl['v1']))
+            d = first_diff(canon_of_tree(tree_of_text(c['doc'])), canon_of_py(impl['v1']), ulp=1)
             if d:
                 v.append({'class': 'serialised-document-changed:%s:%s' % (kind, d.replace('[]', '')),
                           'what': 'a document in serialised form comes back different from parse+serialise at %s' % d})
@@ -579,8 +595,8 @@ def oracle(c, impl):
             if ulp_dist(int(b), int(y)) > 1:
                 v.append({'class': 'float-text-roundtrip', 'what': 'f64 %s comes back as %s (more than the last bit)' % (b, y)})
                 break
-            if ulp_dist(int(b), int(z)) > 1:
-                v.append({'class': 'float-text-roundtrip', 'what': 'f64 %s comes back as %s after two round trips' % (b, z)})
+            if ulp_dist(int(y), int(z)) > 1:
+                v.append({'class': 'float-text-roundtrip', 'what': 'f64 %s comes back as %s after another round trip' % (y, z)})
                 break
     return v
 
